@@ -937,8 +937,17 @@ func linInline(p linPath, call *ast.CallExpr, nres int, visit func(p linPath, st
 	if d == nil || d.Body == nil || d.Type.Results == nil {
 		return nil, false
 	}
-	if sig, ok := fn.Type().(*types.Signature); !ok || sig.Results().Len() != nres || sig.Variadic() {
+	sig, ok := fn.Type().(*types.Signature)
+	if !ok || sig.Results().Len() != nres || sig.Variadic() {
 		return nil, false
+	}
+	// only callees computing integers / booleans are worth their paths: inlining a function that builds a record
+	// (Subsequence, with its dozen branches, called under 84 paths) multiplies the enumeration for nothing
+	for i := 0; i < sig.Results().Len(); i++ {
+		b, isBasic := sig.Results().At(i).Type().Underlying().(*types.Basic)
+		if !isBasic || (b.Info()&types.IsInteger == 0 && b.Kind() != types.Bool) {
+			return nil, false
+		}
 	}
 	// only integer/boolean results are of interest; give up on callees that loop
 	loops := false
